@@ -8,6 +8,8 @@ import Driver.CmdArgsDrv
 import Driver.SeedDrv
 import Driver.ContainersDrv
 import Driver.TokensDrv
+import Driver.MarkupDrv
+import Driver.WaitDrv
 /-! `ysgo-model`: reads case lines on stdin, prints the model's observation lines (id, index, observation) -/
 open Ysgo Ysgo.Drv
 
@@ -23,6 +25,8 @@ def dispatch (stream : String) (c : S) : List String :=
   | "seed" => seedCase c
   | "containers" => containersCase c
   | "tokens" => tokensCase c
+  | "markup" => markupCase c
+  | "wait" => waitCase c
   | _ => ["UNKNOWN-STREAM"]
 
 partial def loop (h : IO.FS.Stream) (out : IO.FS.Stream) : IO Unit := do
